@@ -11,4 +11,11 @@ CLAIMED = {
               "Sampled exploration (hundreds of histories in quick, ~18k in thorough), not proof: it finds divergences reachable by short histories over a 3-name alphabet."),
         note="trusts the Go os package on Linux tmpfs as the oracle; euid 0 so permission enforcement never triggers; known finding C01:readfile-directory is excluded by construction while its probe reproduces",
     ),
+    "C02": dict(
+        technique="model-based (state-machine) property testing with rapid over 1..3 handles; differential oracle = *os.File twins with io.Reader/io.ReaderAt EOF normalisation; shrinking",
+        text=("Generated handle-level histories (open with any flags, read, readat, write, writeat, seek, truncate, stat, close on up to three handles of one file) run against mem.FS "
+              "(multi-handle) and keyvalue.FS over a plain store (single handle), each call compared with the same call on an os.File twin; file bytes and every handle's offset are "
+              "compared after every call. Sampled exploration (600+300 histories quick, 36k thorough)."),
+        note="trusts os.File on tmpfs; zero-length reads on write-only handles and zero-length writes on read-only handles are not generated (os.File short-circuits them before the descriptor); read of a directory handle excluded while known finding C02:read-directory-handle reproduces",
+    ),
 }
